@@ -55,7 +55,11 @@ ASSUMPTIONS = [
     "order probe, which only assumes that the same --seed adds the same noise to an utterance of the same length",
     "post-processors are only combined with utterances long enough to yield >= 3 frames; Standardize output is "
     "compared only where every reference coefficient has variance >= 1e-3",
-    "float32 precision: |a-b| <= 1e-4 max(|a|,|b|) + 1e-5 max|ref| (+ 2e-4 absolute for log-domain features)",
+    "float32 precision: |a-b| <= 1e-4 max(|a|,|b|) + 1e-5 max|ref| for linear features; log features are compared as "
+    "exp() with |a-b| <= 1e-4 max + 2e-7 x (largest sample near the frame) [squared for power spectra]: the PyTorch "
+    "port's single-precision window and filters give an absolute error proportional to the frame's amplitude (zero for "
+    "digital silence); 2e-7 is about 3 x float32 epsilon, the largest error measured was 9e-8 x amplitude; log features that went through linear post-"
+    "processors get the corresponding per-frame log-domain slack",
     "Kaldi tables are opened unsorted (scp:), ids are [A-Za-z0-9_.-]+; ark:- pipes are not exercised",
     "this is the weakest fit of the claimed properties: most of C09 is a functional equivalence; the simulator "
     "contributes the poison-record / environment dimension and the conservation oracle",
@@ -64,7 +68,7 @@ PROBES = [
     "torch_tool", "kaldi_tool", "raw_no_computer", "preemphasis", "dither_determinism", "postprocess",
     "multichannel_select", "too_short_utterance", "zero_length_utterance", "yaml_config", "json_file_config",
     "workers_sim", "si_computer", "include_energy_empty", "kaldi_default_channel0", "order_probe",
-    "utterance_longer_than_2_20",
+    "utterance_longer_than_2_20", "same_process_config_rewritten", "silent_stretch", "id_starting_with_hash",
 ]
 FAULT_KINDS = ["poison_min_duration", "poison_rate_mismatch", "poison_channel_range"]
 
@@ -133,7 +137,7 @@ def generate(rng, tier, k):
         if rng.random() < 0.3:
             post.append({"name": "deltas", "num_deltas": 1})
     if tool == "torch":
-        corpus = world.gen_corpus(rng, nutt, allow_multi=rng.random() < 0.4, short_ok=not post)
+        corpus = world.gen_corpus(rng, nutt, allow_multi=rng.random() < 0.4, short_ok=not post, hash_ids=True)
     else:
         corpus = world.gen_corpus(rng, nutt, allow_multi=rng.random() < 0.4, containers=("wav",), short_ok=not post)
         for u in corpus:
@@ -178,7 +182,18 @@ def generate(rng, tier, k):
         runs.append({"syntax": syntaxes[i], "ambient": rng.randrange(1 << 20),
                      "num_workers": rng.choice((0, 0, 1, 2, 3)) if tool == "torch" else 0,
                      "schedule": [rng.randrange(8) for _ in range(3 * nutt)]})
-    return {"tool": tool, "corpus": corpus, "cfg": cfg, "pre": pre, "post": post, "args": args, "runs": runs}
+    scn = {"tool": tool, "corpus": corpus, "cfg": cfg, "pre": pre, "post": post, "args": args, "runs": runs}
+    if cfg is not None and rng.random() < 0.12:
+        # the tool has already been run in this process with the SAME configuration file names holding another
+        # configuration (a long-lived driver script that rewrites its config files between calls)
+        from sim.clisim.c10 import _cfg_small
+
+        other = _cfg_small("stft")
+        other["bank"]["rate"] = cfg["bank"]["rate"]
+        other["bank"]["high_hz"] = float(min(3800, cfg["bank"]["rate"] // 2 - 100))
+        other["include_energy"] = not cfg.get("include_energy", False)
+        scn["warm_cfg"] = other
+    return scn
 
 
 # ------------------------------------------------------------------------------------------- execution
@@ -375,6 +390,16 @@ def _run(scn, d, res, tr):
                  "schedule": run.get("schedule", [])}
         if tool == "torch" and run.get("num_workers", 0) > 0:
             res.probe("workers_sim")
+        if scn.get("warm_cfg") is not None and run["syntax"] != "inline" and scn.get("cfg") is not None:
+            # first an invocation with another configuration under the same file names, then the files are rewritten
+            res.probe("same_process_config_rewritten")
+            stem = "computer_" + outname
+            final_text = open(os.path.join(d, stem + (".json" if run["syntax"] == "json" else ".yaml"))).read()
+            cfg_path = world.config_arg(common.alias_computer(scn["warm_cfg"]), run["syntax"], d, stem)
+            warm_argv = [a.replace(outname, outname + "_warm") if (outname in a and not a.startswith(cfg_path)
+                                                                   and "computer_" not in a and "pre_" not in a
+                                                                   and "post_" not in a) else a for a in argv]
+            knobs["pre_runs"] = [{"argv": warm_argv, "rewrite": {cfg_path: final_text}}]
         r = child.run_tool(tool, argv, d, None, knobs)
         exc = [u for n, u, c in r["events"] if n == "exception"]
         tr.log("run", ri, r["exit"], exc)
@@ -411,6 +436,10 @@ def _run(scn, d, res, tr):
                 if u["id"] not in keep:
                     continue
                 x = world.make_signal(u)
+                if u.get("silence"):
+                    res.probe("silent_stretch")
+                if u["id"].startswith("#"):
+                    res.probe("id_starting_with_hash")
                 ch = a.get("channel", -1)
                 if x.shape[0] > 1:
                     res.probe("multichannel_select")
@@ -418,6 +447,12 @@ def _run(scn, d, res, tr):
                         res.probe("kaldi_default_channel0")
                 ref = refpipe.reference(x, cfg, scn.get("pre", []), scn.get("post", []), ch)
                 got_a = stored[name(u["id"])]
+                if cfg is not None and use_log:
+                    base, sig = refpipe.reference(x, cfg, scn.get("pre", []), [], ch, want_signal=True)
+                    comp = configs.build(cfg)
+                    amp = refpipe.frame_amplitude(sig, base.shape[0], int(comp.frame_length), int(comp.frame_shift))
+                    if tool == "kaldi" or cfg["computer"] != "stft":
+                        amp = amp * 0.0  # NumPy on both sides: only the final float32 cast differs
                 if isinstance(got_a, Exception):
                     res.violate("UNREADABLE", "stored features of %s cannot be loaded: %r" % (u["id"], got_a),
                                 phase="values", **facts)
@@ -440,7 +475,19 @@ def _run(scn, d, res, tr):
                                              scn["post"][: [p["name"] for p in scn["post"]].index("standardize")], ch)
                     if base.shape[0] < 2 or (base.astype(np.float64).var(axis=0) < 1e-3).any():
                         continue
-                bad = refpipe.close(got_a, ref, use_log or bool(scn.get("post")))
+                up = bool(cfg.get("use_power")) if cfg is not None else False
+                if use_log and not scn.get("post"):
+                    bad = refpipe.close_linear(got_a, ref, amp, up)
+                elif use_log:
+                    # linear post-processing of log features: allow what single precision does to the smallest
+                    # coefficient of a frame (times the gain of the post-processors)
+                    gain = 2.0
+                    if any(p["name"] == "standardize" for p in scn["post"]):
+                        sd = base.astype(np.float64).std(axis=0) if base.shape[0] > 1 else np.ones(1)
+                        gain = 2.0 / max(float(sd.min()), 0.03)
+                    bad = refpipe.close(got_a, ref, True, slack=gain * refpipe.log_slack(base, amp, up))
+                else:
+                    bad = refpipe.close(got_a, ref, bool(scn.get("post")))
                 if bad:
                     res.violate("VALUES", "%s tool, utterance %s (n=%d, %d ch): %s; cfg=%s pre=%s post=%s" % (
                         tool, u["id"], u["n"], u["channels"], bad, (cfg or {}).get("computer"),
